@@ -228,6 +228,17 @@ class Interp:
             elif k == 'assign':
                 lv = n['lhs']
                 step = n.get('op') in ('+=', '-=') and fn.const_value(n['rhs']) is not None
+                if n.get('op') == '=':
+                    # c = c + k / c = c - k / c = k + c
+                    r = fn.nodes.get(fn.strip(n['rhs']))
+                    l = fn.nodes.get(fn.strip(lv, casts=False))
+                    if r is not None and l is not None and l.get('k') == 'var' and r.get('k') == 'binop' and r.get('op') in ('+', '-'):
+                        a, b = fn.nodes.get(fn.strip(r['lhs'])), fn.nodes.get(fn.strip(r['rhs']))
+                        if a is not None and a.get('k') == 'var' and a.get('d') == l.get('d') and fn.const_value(r['rhs']) is not None:
+                            step = True
+                        elif r['op'] == '+' and b is not None and b.get('k') == 'var' and b.get('d') == l.get('d') \
+                                and fn.const_value(r['lhs']) is not None:
+                            step = True
             if lv is None:
                 continue
             m = fn.nodes.get(fn.strip(lv, casts=False))
